@@ -11,9 +11,13 @@
        its hash with the SAME planes (C11_insert_rows_bucket).
     PROVED for the linear policies (scale=False, exact arithmetic): any two ways of cutting the same per-arm rows into
     fit + partial_fit calls give the same A, X'y, A_inv and beta for every arm (X'X and X'y are additive over row blocks).
-    ..._partial: Clusters (k-means is re-run on the whole history) is covered by the batch-versus-chunked relation only. *)
+    PROVED for Clusters over context-free policies other than Thompson Sampling: one fit on the accumulated history, or fit +
+    partial_fit, leave the same state whenever k-means labels the accumulated history alike (the per-cluster policies are
+    re-fitted on their rows of the whole history, and fit forgets).
+    ..._partial: that KMeans does label alike (it is re-run on the whole history with the same seed) and MiniBatchKMeans are
+    covered by the batch-versus-chunked relation only. *)
 From Coq Require Import List ZArith Bool Arith QArith Qcanon Permutation.
-From MW Require Import Num Assoc AssocFacts Rng Par CF CFInv CFClean CFForget CFSpec Matrix Lin Warm WarmInv Nbr NbrFacts NbrIndep LshFacts Clu Tree CellFacts Mab FacadeCF FacadeArms MoreFacts NumLaws CFAlg Sim Extra QcInst OrderFacts ExpIrrel LinInv FacadeLin LpInv NbrInv CluTreeInv FacadeAll ToyFacts C09All C10All LinForget LinSim MatrixFacts GaussJordan LinSpec NbrIndepGen CluIndep C17Lin WarmIdem.
+From MW Require Import Num Assoc AssocFacts Rng Par CF CFInv CFClean CFForget CFSpec Matrix Lin Warm WarmInv Nbr NbrFacts NbrIndep LshFacts Clu Tree CellFacts Mab FacadeCF FacadeArms MoreFacts NumLaws CFAlg Sim Extra QcInst OrderFacts ExpIrrel LinInv FacadeLin LpInv NbrInv CluTreeInv FacadeAll ToyFacts C09All C10All LinForget LinSim MatrixFacts GaussJordan LinSpec NbrIndepGen CluIndep C17Lin WarmIdem C14More LshScale TreeLeaf Rename PopSpec CopyFacts StatFacts CluBatch LinWarm.
 Import ListNotations.
 
 Theorem C06_statistics_depend_only_on_concatenated_history :
@@ -80,6 +84,18 @@ Theorem C06_linear_split_into_fit_and_partial_fit_is_irrelevant :
   r_A mk = r_A mk' /\ r_Xty mk = r_Xty mk' /\ r_Ainv mk = r_Ainv mk' /\ r_beta mk = r_beta mk'.
 Proof. exact @lin_split_irrelevant. Qed.
 Print Assumptions C06_linear_split_into_fit_and_partial_fit_is_irrelevant.
+
+Theorem C06_clusters_batch_equals_incremental :
+  forall (R A G : Type) (N : Num R) (aeqb : A -> A -> bool),
+  (forall x y : A, aeqb x y = true <-> x = y) ->
+  forall (s : (@clu R A G)) (g g' : G) (ds1 : list A) (rs1 : list R) (cx1 : (@mat R)) (ds2 : list A) 
+    (rs2 : list R) (cx2 : (@mat R)) (labels1 labels : list nat),
+  Forall (plain N) (k_lps s) ->
+  length (k_lps s) = k_n s ->
+  fst (clu_partial_fit N aeqb (fst (clu_fit N aeqb s g ds1 rs1 cx1 labels1)) g' ds2 rs2 cx2 labels) =
+  fst (clu_fit N aeqb s g' (ds1 ++ ds2) (rs1 ++ rs2) (cx1 ++ cx2) labels).
+Proof. exact @clusters_batch_equals_incremental. Qed.
+Print Assumptions C06_clusters_batch_equals_incremental.
 
 Theorem C06_gram_matrix_additive_over_row_blocks :
   forall (R : Type) (N : Num R),
